@@ -59,4 +59,9 @@ def main(argv=None):
 
 
 if __name__ == '__main__':
-    sys.exit(main())
+    rc = main()
+    # provider threads of the library under test are non-daemon and spin while idle: a broken tree may leave one
+    # running, which must not keep the check from terminating
+    sys.stdout.flush()
+    sys.stderr.flush()
+    os._exit(rc if isinstance(rc, int) else 0)
